@@ -1,12 +1,12 @@
 // Runtime contract check of the Markdown front-end (attached to harper-core/src/parsers/markdown.rs).
 // BOUNDED stand-in (pulldown-cmark is external; the byte->char bookkeeping is str code outside both
-// verifiers): for every concatenation of up to 4 fragments from a list with multi-byte characters in
+// verifiers): for every concatenation of up to 4 fragments from a list with wikilinks (also malformed ones), multi-byte characters in
 // prose, link text, link targets, inline code and emphasis, and both link-title options, the tokens that
 // cover characters lie inside the text, in increasing non-overlapping order; zero-width tokens are only
 // structural breaks (newline / paragraph break).
 #[test]
 fn rac_markdown_tokens() {
-    let frags = ["word ", "é😀 ", "[日本語の説明書](x) ", "[a](https://e.com/é) ", "`c😀de` ", "*emph* ", "\n\n", "\n", "# H\n", "- item\n", "| a | b |\n", "1. x\n", "<b>t</b> ", "\\[a- "];
+    let frags = ["word ", "é😀 ", "[日本語の説明書](x) ", "[a](https://e.com/é) ", "`c😀de` ", "*emph* ", "\n\n", "\n", "# H\n", "- item\n", "| a | b |\n", "1. x\n", "<b>t</b> ", "\\[a- ", "[[|alias|300]] ", "\\[[a|b|c]] ", "[[a|b [[c]] |d]] ", "[[page|shown]] "];
     let mut texts: Vec<String> = vec![String::new()];
     let mut frontier: Vec<String> = vec![String::new()];
     for _ in 0..4 {
@@ -57,5 +57,5 @@ fn rac_markdown_tokens() {
             }
         }
     }
-    println!("RAC-OK markdown_tokens cases={} nontrivial={} bound=<=4-of-14-fragments,both-link-title-options", cases, nontrivial);
+    println!("RAC-OK markdown_tokens cases={} nontrivial={} bound=<=4-of-18-fragments,both-link-title-options", cases, nontrivial);
 }
